@@ -1,4 +1,5 @@
 import Pycoin.Proofs.MerkleBlock
+import Pycoin.Model.Sha256
 /-!
 C14 — Blocks round-trip, ids and merkle roots follow the Bitcoin definition.
 Property theorems only.  Part 1: merkle roots and BIP37 merkleblock proofs.
@@ -174,4 +175,92 @@ theorem C14_root_mismatch_rejected (hn : 0 < n) (hsib : NoEqualSiblings H leaf n
   simp only [h2, Nat.not_lt.mpr h3, if_false, Ne.symm hne]
 
 end proofs
+
+/-! ## corrupted proofs: statements about *every* accepted input (no honesty assumption on the proof at hand) -/
+
+section corrupt
+variable (H : Bytes → Bytes)
+
+/-- C14.extra_or_missing_rejected: the number of hashes an accepted proof carries is determined by the transaction
+count and the flag bytes; hence adding or removing hashes (any number, anywhere) to an accepted proof gets it
+rejected, whatever root it is checked against -/
+theorem C14_extra_or_missing_rejected (n : Nat) (flags : Bytes) (hs hs' : List Bytes) (root root' : Bytes)
+    (r : List Bytes) (hok : verify H n hs flags root = .ok r) (hlen : hs'.length ≠ hs.length) :
+    ∃ e, verify H n hs' flags root' = .error e := by
+  cases hv : verify H n hs' flags root' with
+  | error e => exact ⟨e, rfl⟩
+  | ok r' => exact absurd (verify_count H flags hok hv).symm hlen
+
+/-- C14.altered_hash_collision: if a proof is accepted and a proof with different hashes (same count, flags and
+root — e.g. one supplied hash altered) is accepted too, the two runs exhibit an explicit collision of the node hash
+on 64-byte inputs.  No idealisation: this is the reduction itself. -/
+theorem C14_altered_hash_collision (hH : ∀ x, (H x).length = 32) (n : Nat) (flags : Bytes) (hs hs' : List Bytes)
+    (root : Bytes) (r r' : List Bytes) (h32 : ∀ x ∈ hs, x.length = 32) (h32' : ∀ x ∈ hs', x.length = 32)
+    (hok : verify H n hs flags root = .ok r) (hok' : verify H n hs' flags root = .ok r') (hne : hs' ≠ hs) :
+    Collision H := by
+  obtain ⟨f, h1⟩ := verify_ok_inv H flags hok
+  obtain ⟨f', h2⟩ := verify_ok_inv H flags hok'
+  obtain ⟨g1, g2, e1, e2, _, _, _, imp⟩ := recurse_two H _ flags hH _ _ _ _ _ _ _ _ _ _ _ _ _ _ _ _
+    (by simpa using h32) (by simpa using h32') h1 h2
+  rcases imp rfl with h | h
+  · simp only [List.nil_append] at e1 e2
+    rw [← e1, ← e2] at h
+    exact absurd (List.reverse_inj.mp h).symm hne
+  · exact h
+
+/-- C14.altered_hash_rejected: under the idealised-hash hypothesis (the node hash has no collision on 64-byte
+inputs) an accepted proof with any supplied hash altered is rejected.  The hypothesis cannot hold for a real
+32-byte hash (pigeonhole); `C14_altered_hash_collision` is the unconditional form. -/
+theorem C14_altered_hash_rejected (hH : ∀ x, (H x).length = 32)
+    (hinj : ∀ x y : Bytes, x.length = 64 → y.length = 64 → H x = H y → x = y)
+    (n : Nat) (flags : Bytes) (hs hs' : List Bytes) (root : Bytes) (r : List Bytes)
+    (h32 : ∀ x ∈ hs, x.length = 32) (h32' : ∀ x ∈ hs', x.length = 32)
+    (hok : verify H n hs flags root = .ok r) (hne : hs' ≠ hs) :
+    ∃ e, verify H n hs' flags root = .error e := by
+  cases hv : verify H n hs' flags root with
+  | error e => exact ⟨e, rfl⟩
+  | ok r' =>
+    obtain ⟨x, y, hx, hy, hxy, he⟩ := C14_altered_hash_collision H hH n flags hs hs' root r r' h32 h32' hok hv hne
+    exact absurd (hinj x y hx hy he) hxy
+
+end corrupt
+
+/-- the length hypothesis holds for pycoin's node hash -/
+theorem dsha256_length (x : Bytes) : (Pycoin.Hash.dsha256 x).length = 32 := by
+  simp [Pycoin.Hash.dsha256, Pycoin.Hash.sha256, Pycoin.Hash.u32be]
+
+
+/-! ## non-vacuity: the hypotheses are satisfiable, and the statements are exercised on real double-SHA256 (evaluated) -/
+
+example : NoEqualSiblings (fun x => x) (fun i => [UInt8.ofNat i]) 2 := by
+  intro h pos hlt
+  rw [lt_treeWidth] at hlt
+  cases h with
+  | zero =>
+    have : pos = 0 := by simp at hlt; omega
+    subst this
+    simp [calcHash]
+  | succ h =>
+    exfalso
+    have h2 : 2 ≤ 2 ^ (h + 1) := by
+      rw [Nat.pow_succ]; have := Nat.pow_pos (n := h) (show 0 < 2 by decide); omega
+    have : 2 ^ (h + 1) ≤ (2 * pos + 1) * 2 ^ (h + 1) := Nat.le_mul_of_pos_left _ (by omega)
+    omega
+
+private def leaf5 : Nat → Bytes := fun i => Pycoin.Hash.dsha256 [UInt8.ofNat i]
+private def m5 : Nat → Bool := fun i => i == 1 || i == 4
+private def okEq (r : Except MerkleBlock.Err (List Bytes)) (v : List Bytes) : Bool :=
+  match r with | .ok x => x == v | .error _ => false
+private def isErr (r : Except MerkleBlock.Err (List Bytes)) : Bool :=
+  match r with | .ok _ => false | .error _ => true
+
+-- 5 transactions (odd levels at two depths), the last leaf and an inner one matched
+#guard okEq (verify Pycoin.Hash.dsha256 5 (proof Pycoin.Hash.dsha256 leaf5 m5 5).2 (proof Pycoin.Hash.dsha256 leaf5 m5 5).1
+  (root Pycoin.Hash.dsha256 leaf5 5)) [leaf5 1, leaf5 4]
+#guard isErr (verify Pycoin.Hash.dsha256 5 ((proof Pycoin.Hash.dsha256 leaf5 m5 5).2.drop 1) (proof Pycoin.Hash.dsha256 leaf5 m5 5).1
+  (root Pycoin.Hash.dsha256 leaf5 5))
+#guard isErr (verify Pycoin.Hash.dsha256 5 (proof Pycoin.Hash.dsha256 leaf5 m5 5).2 ((proof Pycoin.Hash.dsha256 leaf5 m5 5).1 ++ [0])
+  (root Pycoin.Hash.dsha256 leaf5 5))
+#guard merkle Pycoin.Hash.dsha256 ((List.range 5).map leaf5) matches .ok _
+
 end Pycoin.C14
